@@ -68,10 +68,35 @@ def observe(bits):
     sentences = ais.bits_to_sentences(bits)
     msg = pyais.decode(*sentences)
     st = msg.get_communication_state()
-    return {'class': type(msg).__name__, 'msg_type': int(msg.msg_type), 'radio': int(msg.radio),
-            'state': {k: (None if v is None else int(v)) for k, v in st.items()},
-            'is_sotdma': bool(msg.is_sotdma), 'is_itdma': bool(msg.is_itdma),
-            'raw': int(msg.communication_state_raw)}
+    obs = {'class': type(msg).__name__, 'msg_type': int(msg.msg_type), 'radio': int(msg.radio),
+           'state': {k: (None if v is None else int(v)) for k, v in st.items()},
+           'is_sotdma': bool(msg.is_sotdma), 'is_itdma': bool(msg.is_itdma),
+           'raw': int(msg.communication_state_raw), 'aliasing': None, 'reassigned': None}
+    # (1) result independence: the returned dict belongs to the caller -- overwrite it and ask again
+    st.clear()
+    st['sync_state'] = 'overwritten by the caller'
+    st2 = msg.get_communication_state()
+    again = {k: (None if v is None else (int(v) if not isinstance(v, str) else v)) for k, v in st2.items()}
+    if again != obs['state']:
+        obs['aliasing'] = (f'get_communication_state() called again after the caller overwrote the first result returns '
+                           f'{again}, the first time {obs["state"]}')
+    # (2) the same radio value ASSIGNED to a long-lived message object of the same class (msg.radio is a plain public field;
+    # decoded messages are edited and re-encoded in pyais' own tests): state and classification must follow the value
+    key = type(msg).__name__
+    old = _SWEPT.get(key)
+    if old is None:
+        _SWEPT[key] = msg
+    else:
+        old.radio = msg.radio
+        got = ({k: (None if v is None else int(v)) for k, v in old.get_communication_state().items()},
+               bool(old.is_sotdma), bool(old.is_itdma), int(old.communication_state_raw))
+        if got != (obs['state'], obs['is_sotdma'], obs['is_itdma'], obs['raw']):
+            obs['reassigned'] = (f'a {key} object whose radio was set to {int(msg.radio)} by assignment reports '
+                                 f'{got}, a freshly decoded one {(obs["state"], obs["is_sotdma"], obs["is_itdma"], obs["raw"])}')
+    return obs
+
+
+_SWEPT = {}
 
 
 def parse_dict(txt):
@@ -126,6 +151,10 @@ def oracle(obs, spec, mt, radio):
     return bad
 
 
+_LAST_WITH = {}
+_SWEEP_FROM = {}      # class -> bits of the first message of that class in this process (the long-lived object of observe())
+
+
 def check_cases(ctx, cases, want_samples=True):
     """cases: list of (carrier index, radio, bits)."""
     rep = ctx.rep
@@ -135,19 +164,33 @@ def check_cases(ctx, cases, want_samples=True):
         mt = carrier[0]
         variant = ''.join(carrier[4].get(k, '') for k in (38, 39))
         rep.case((mt, variant, radio), kind=f'type{mt}{"/" + variant if variant else ""}')
+        # the most recent earlier message of this process with the SAME radio value (a result remembered under part of the
+        # input, e.g. the radio value without the message type, only reproduces after that message): goes into the replay
+        earlier = _LAST_WITH.get(radio & 0x7ffff)
+        _LAST_WITH[radio & 0x7ffff] = bits
+        if len(_LAST_WITH) > 400000:
+            _LAST_WITH.clear()
         try:
             obs = observe(bits)
         except Exception as e:  # the implementation failed outright on a valid message
             rep.violation({'entry': 'decode+get_communication_state', 'type': mt, 'component': 'exception',
                            'kind': f'exception:{type(e).__name__}'},
-                          f'type {mt} radio {radio}: {type(e).__name__}: {e}', {'carrier': ci, 'radio': radio, 'bits': bits})
+                          f'type {mt} radio {radio}: {type(e).__name__}: {e}', {'carrier': ci, 'radio': radio, 'bits': bits, 'earlier_same_radio': earlier})
             continue
         if obs['msg_type'] != mt or obs['radio'] != radio:
             # the radio value did not arrive where the standard puts it: a layout defect (C01), still a C20 failure
             rep.violation({'entry': 'decode', 'type': mt, 'component': 'radio', 'kind': 'wrong-value'},
                           f'type {mt}{variant}: radio field decoded as {obs["radio"]}, payload carries {radio}',
-                          {'carrier': ci, 'radio': radio, 'bits': bits})
+                          {'carrier': ci, 'radio': radio, 'bits': bits, 'earlier_same_radio': earlier})
             continue
+        for comp in ('aliasing', 'reassigned'):
+            if obs.get(comp):
+                rep.violation({'entry': 'get_communication_state', 'type': mt, 'component': comp,
+                               'kind': 'aliased-result' if comp == 'aliasing' else 'stale-after-assignment'},
+                              f'type {mt}{("/" + variant) if variant else ""} radio {radio} (0x{radio:x}): {obs[comp]}',
+                              {'carrier': ci, 'radio': radio, 'bits': bits, 'earlier_same_radio': earlier,
+                               'sweep_from': _SWEEP_FROM.get(obs['class'])})
+        _SWEEP_FROM.setdefault(obs['class'], bits)
         if replies is None:
             continue
         model, spec = parse_reply(replies[n])
@@ -162,7 +205,7 @@ def check_cases(ctx, cases, want_samples=True):
         for comp, kind, text in oracle(obs, spec, mt, radio):
             rep.violation({'entry': 'get_communication_state', 'type': mt, 'component': comp, 'kind': kind},
                           f'type {mt}{("/" + variant) if variant else ""} radio {radio} (0x{radio:x}): {text}',
-                          {'carrier': ci, 'radio': radio, 'bits': bits})
+                          {'carrier': ci, 'radio': radio, 'bits': bits, 'earlier_same_radio': earlier})
         if want_samples and n % 997 == 0:
             rep.sample({'type': mt, 'variant': variant, 'radio': radio, 'reported': obs['state'],
                         'sentences': [s.decode() for s in ais.bits_to_sentences(bits)][:1]})
@@ -243,12 +286,27 @@ def replay(ctx, data):
     m = ctx.model or vlib.FastModel()
     ci, radio, bits = data['carrier'], data['radio'], data['bits']
     mt = CARRIERS[ci][0]
-    try:
-        obs = observe(bits)
-    except Exception as e:
-        return f'{type(e).__name__}: {e}'
-    if obs['msg_type'] != mt or obs['radio'] != radio:
-        return f'radio decoded as {obs["radio"]}, payload carries {radio}'
-    _, spec = parse_reply(m.ask(f'c20 {mt} {radio}'))
-    bad = oracle(obs, spec, mt, radio)
-    return '; '.join(t for _, _, t in bad) if bad else None
+
+    def once():
+        try:
+            obs = observe(bits)
+        except Exception as e:
+            return f'{type(e).__name__}: {e}'
+        if obs['msg_type'] != mt or obs['radio'] != radio:
+            return f'radio decoded as {obs["radio"]}, payload carries {radio}'
+        if obs.get('aliasing') or obs.get('reassigned'):
+            return obs.get('aliasing') or obs.get('reassigned')
+        _, spec = parse_reply(m.ask(f'c20 {mt} {radio}'))
+        bad = oracle(obs, spec, mt, radio)
+        return '; '.join(t for _, _, t in bad) if bad else None
+    if data.get('sweep_from'):
+        try:
+            observe(data['sweep_from'])        # the message whose object is kept and has its radio re-assigned
+        except Exception:      # noqa: BLE001
+            pass
+    if data.get('earlier_same_radio'):
+        try:
+            observe(data['earlier_same_radio'])        # the earlier message with the same radio value, as in the recorded run
+        except Exception:      # noqa: BLE001
+            pass
+    return once()
